@@ -104,4 +104,130 @@ theorem loop_shape (cfg : Cfg) (p : Phase) (sub : Option Nat) (limit : Nat) :
       · exact ⟨[], by simp [a], by simp [b], by simp, by simp⟩
       · exact ⟨[rec_], by simp [a], by simp [b], by simp, by simp [hid]⟩
 
+
+section traversal
+open Spec
+
+/-- (a) in skipping mode every node is processed as `skipNode`, returns CONTINUE and leaves the subtest failed -/
+theorem exec_skip (cfg : Cfg) : ∀ (n : Node) (sub : Option Nat) (st : St), sub.isSome = true → st.subFail = true →
+    exec cfg n sub false st = (skipNode n sub st, .cont) ∧ (skipNode n sub st).subFail = true
+  | .phase p, sub, st, hs, hf => by
+    simp [exec, execPhaseNode, hs, hf, skipNode, skipPhase]
+  | .checkpoint c, sub, st, hs, hf => by
+    simp [exec, execCheckpoint, hs, hf, skipNode]
+  | .seq ns, sub, st, hs, hf => by
+    have := execAb_skip cfg ns sub st hs hf
+    simp [exec, skipNode, this]
+  | .subtest name ns, sub, st, hs, hf => by
+    have e0 : ({ st with subFail := sub.isSome && st.subFail } : St) = st := by
+      cases st; simp_all
+    have h := execAb_skip cfg ns (some name) st rfl hf
+    simp only [exec, Bool.false_eq_true, if_false, e0, h.1, skipNode]
+    simp [h.2, hf]
+  | .branch id c ns, sub, st, hs, hf => by
+    simp [exec, hs, hf, skipNode]
+  | .group s m t, sub, st, hs, hf => by
+    have h1 := execAb_skip cfg s sub st hs hf
+    have h2 := execAb_skip cfg m sub _ hs h1.2
+    have h3 := execAb_skip cfg t sub _ hs h2.2
+    simp [exec, hs, hf, h1.1, h2.1, h3.1, skipNode, Ret.max, h3.2]
+where
+  execAb_skip (cfg : Cfg) : ∀ (ns : List Node) (sub : Option Nat) (st : St), sub.isSome = true → st.subFail = true →
+      execAb cfg ns sub st = (skipList ns sub st, .cont) ∧ (skipList ns sub st).subFail = true
+    | [], sub, st, hs, hf => by simp [execAb, skipList, hf]
+    | n :: ns, sub, st, hs, hf => by
+      have h1 := exec_skip cfg n sub st hs hf
+      have h2 := execAb_skip cfg ns sub _ hs h1.2
+      simp [execAb, skipList, h1.1, h2.1, h2.2]
+
+def modeOf (td : Bool) : Mode := if td then .td else .run
+
+theorem eff_td (sub : Option Nat) (st : St) : eff .td sub st = .td := rfl
+theorem eff_run (sub : Option Nat) (st : St) : eff .run sub st = if sub.isSome && st.subFail then .skip else .run := rfl
+
+theorem skipping_or_not (sub : Option Nat) (st : St) :
+    (sub.isSome = true ∧ st.subFail = true) ∨ (sub.isSome && st.subFail) = false := by
+  cases sub.isSome <;> cases st.subFail <;> simp
+
+theorem eff_run_not_skip (sub : Option Nat) (st : St) (h : (sub.isSome && st.subFail) = false) : eff .run sub st = .run := by
+  simp [eff, h]
+theorem eff_run_is_skip (sub : Option Nat) (st : St) (hs : sub.isSome = true) (hf : st.subFail = true) : eff .run sub st = .skip := by
+  simp [eff, hs, hf]
+
+/-- C02 refinement: the executor's traversal computes exactly the mode reading of the document -/
+theorem exec_refines (cfg : Cfg) : ∀ (n : Node) (sub : Option Nat) (td : Bool) (st : St),
+    exec cfg n sub td st = Spec.node cfg n (modeOf td) sub st
+  | .phase p, sub, td, st => by
+    cases td
+    · rcases skipping_or_not sub st with ⟨hs, hf⟩ | h
+      · simp [exec, execPhaseNode, Spec.node, modeOf, eff_run_is_skip sub st hs hf, hs, hf, skipNode]
+      · have h' : ¬ (sub.isSome = true ∧ st.subFail = true) := by simpa using h
+        simp [exec, execPhaseNode, Spec.node, modeOf, eff_run_not_skip sub st h, h']
+    · simp [exec, execPhaseNode, Spec.node, modeOf, eff_td]
+  | .checkpoint c, sub, td, st => by
+    cases td
+    · rcases skipping_or_not sub st with ⟨hs, hf⟩ | h
+      · simp [exec, execCheckpoint, Spec.node, modeOf, eff_run_is_skip sub st hs hf, hs, hf, skipNode]
+      · have h' : ¬ (sub.isSome = true ∧ st.subFail = true) := by simpa using h
+        simp [exec, execCheckpoint, Spec.node, modeOf, eff_run_not_skip sub st h, h']
+    · simp [exec, execCheckpoint, Spec.node, modeOf, eff_td]
+  | .seq ns, sub, td, st => by
+    cases td
+    · rcases skipping_or_not sub st with ⟨hs, hf⟩ | h
+      · have := (exec_skip.execAb_skip cfg ns sub st hs hf).1
+        simp [exec, this, Spec.node, modeOf, eff_run_is_skip sub st hs hf]
+      · simp [exec, Spec.node, modeOf, eff_run_not_skip sub st h, execAb_refines cfg ns sub st]
+    · simp [exec, Spec.node, modeOf, eff_td, execTd_refines cfg ns sub st]
+  | .branch id c ns, sub, td, st => by
+    cases td
+    · rcases skipping_or_not sub st with ⟨hs, hf⟩ | h
+      · simp [exec, Spec.node, modeOf, eff_run_is_skip sub st hs hf, hs, hf]
+      · have h' : ¬ (sub.isSome = true ∧ st.subFail = true) := by simpa using h
+        simp [exec, Spec.node, modeOf, eff_run_not_skip sub st h, h', execAb_refines cfg ns sub st]
+    · simp [exec, Spec.node, modeOf, eff_td, execTd_refines cfg ns sub st]
+  | .subtest name ns, sub, td, st => by
+    cases td
+    · rcases skipping_or_not sub st with ⟨hs, hf⟩ | h
+      · have := (exec_skip cfg (.subtest name ns) sub st hs hf).1
+        simp [this, Spec.node, modeOf, eff_run_is_skip sub st hs hf]
+      · simp [exec, Spec.node, modeOf, eff_run_not_skip sub st h, execAb_refines cfg ns (some name)]
+    · simp [exec, Spec.node, modeOf, eff_td, execTd_refines cfg ns (some name)]
+  | .group s m t, sub, td, st => by
+    cases td
+    · rcases skipping_or_not sub st with ⟨hs, hf⟩ | h
+      · have := (exec_skip cfg (.group s m t) sub st hs hf).1
+        simp [this, Spec.node, modeOf, eff_run_is_skip sub st hs hf]
+      · have h' : ¬ (sub.isSome = true ∧ st.subFail = true) := by simpa using h
+        simp only [exec, Spec.node, modeOf, eff_run_not_skip sub st h, execAb_refines cfg s sub st, Bool.false_eq_true, if_false,
+          Bool.not_false, Bool.true_and, Bool.false_or, h]
+        simp only [show (Mode.run = Mode.skip) = False by simp, if_false]
+        split
+        · rfl
+        · rcases skipping_or_not sub (Spec.seq cfg s .run sub st).1 with ⟨hs2, hf2⟩ | h2
+          · have e2 := exec_skip.execAb_skip cfg m sub _ hs2 hf2
+            have e3 := exec_skip.execAb_skip cfg t sub _ hs2 e2.2
+            simp [hs2, hf2, e2.1, e3.1, Ret.max, eff_run_is_skip _ _ hs2 hf2]
+          · simp [h2, execAb_refines cfg m sub, execTd_refines cfg t sub, eff_run_not_skip _ _ h2]
+    · simp only [exec, Spec.node, modeOf, eff_td, execTd_refines cfg s sub st, execTd_refines cfg m sub,
+        execTd_refines cfg t sub, if_true, Bool.not_true, Bool.false_and, Bool.or_false, Bool.not_false]
+      simp
+where
+  execAb_refines (cfg : Cfg) : ∀ (ns : List Node) (sub : Option Nat) (st : St),
+      execAb cfg ns sub st = Spec.seq cfg ns .run sub st
+    | [], sub, st => by simp [execAb, Spec.seq]
+    | n :: ns, sub, st => by
+      simp only [execAb, Spec.seq, exec_refines cfg n sub false st, modeOf, Bool.false_eq_true, if_false]
+      simp only [show (Mode.run = Mode.td) = False by simp, if_false]
+      split
+      · rfl
+      · exact execAb_refines cfg ns sub _
+  execTd_refines (cfg : Cfg) : ∀ (ns : List Node) (sub : Option Nat) (st : St),
+      execTd cfg ns sub st = Spec.seq cfg ns .td sub st
+    | [], sub, st => by simp [execTd, Spec.seq]
+    | n :: ns, sub, st => by
+      simp only [execTd, Spec.seq, exec_refines cfg n sub true st, modeOf, if_true]
+      rw [execTd_refines cfg ns sub]
+
+end traversal
+
 end OpenHTF.Exec
